@@ -201,7 +201,21 @@ def check_gtcount(prog, rep, K):
         dos = v.func.value.left
         dv = defs.get(dos.id, [None])[0] if isinstance(dos, ast.Name) else dos
         want = ["self._mat", "self.mat"] if K.name == "DenseGenotypeMatrix" else ["self._mat.sum(self.phase_axis)", "self.mat.sum(self.phase_axis)"]
-        if dv is None or dump(dv) not in want:
+        same = dv is not None and dump(dv) in want
+        undecided = dv is None
+        if not same and dv is not None:
+            # the same value in another spelling (axis as keyword, numpy.sum(...)): compare by value number
+            try:
+                dvn = VN(prog, f).expr(dv)
+                refs_ = [VN(prog, f).expr(ast.parse(w_, mode="eval").body) for w_ in want]
+                same = any(dvn == r_ for r_ in refs_)
+                undecided = not same and not any(comparable(dvn, r_) for r_ in refs_)
+            except VNUnknown:
+                undecided = True
+        if undecided:
+            rep.unrec("R3-classes", construct, "dosage %s not traced / written with operators the rule does not model" % (dump(dv)[:60] if dv is not None else dump(dos)))
+            good = False
+        elif not same:
             rep.violate("R3-classes", construct, "classes are counted on %s, not on the allele dosage (%s)" % (dump(dv) if dv is not None else "?", want[0]), where(f, st), want[0],
                         dump(dv) if dv is not None else "?")
             good = False
